@@ -31,7 +31,10 @@ fn gen(seed: u64, idx: u64, _tier: Tier) -> Plan {
         s.source = if rng.chance(1, 2) { ConfigSource::File } else { ConfigSource::Env };
         s.client_stats = Some("on".into());
         s.persist_dir = Some("/tmp".into());
-        s.status_interval = Some(*rng.pick(&[20i64, 30]));
+        // mostly one or two reports per run; one run in five reports every 1-2 s for a long time
+        // (dozens of reports, hundreds of worker snapshots: anything that goes wrong at the Nth)
+        let short = if rng.chance(1, 2) { 1i64 } else { 2 };
+        s.status_interval = Some(*rng.pick(&[20i64, 20, 30, 30, short]));
         s.stats_limit = Some(*rng.pick(&[5_000_000i64, 5_000_000, 3, 8]));
     } else {
         plan.params.insert("snap_stats".into(), 1);
@@ -66,11 +69,15 @@ fn gen(seed: u64, idx: u64, _tier: Tier) -> Plan {
         }
         t += *rng.pick(&[5_000u64, 120_000, 450_000]);
     }
-    if fmode && rng.chance(1, 2) {
+    let many_reports = fmode && plan.server.as_ref().unwrap().status_interval.unwrap() <= 2;
+    if fmode && (many_reports || rng.chance(1, 2)) {
         // traffic goes on across the reporter's first report(s): a trickle of requests until after
         // the first interval, so that workers publish snapshots while the reporter is busy writing
         let interval_us = plan.server.as_ref().unwrap().status_interval.unwrap() as u64 * 1_000_000;
-        let until = interval_us + 5_000_000 + rng.below(4_000_000);
+        let until = if many_reports { 30_000_000 + rng.below(60_000_000) } else { interval_us + 5_000_000 + rng.below(4_000_000) };
+        if many_reports {
+            plan.params.insert("many_reports".into(), 1);
+        }
         while t < until {
             plan.step(t, Action::Send { sock: rng.below(24) as u32, req: valid_spec(&mut rng, &mut ctr) });
             t += 20_000 + rng.below(180_000);
@@ -280,6 +287,9 @@ fn check(plan: &Plan, out: &RunOut) -> CheckOut {
                     e[i] += get(k).parse::<u64>().unwrap_or(0);
                 }
             }
+        }
+        if files >= 20 {
+            co.probe("reporter_wrote_20_or_more_files");
         }
         if files > 0 {
             co.probe("reporter_wrote_csv");
